@@ -25,6 +25,7 @@ func (r *RectClip64) Execute(paths Paths64) Paths64 {
 		if len(path) < 3 {
 			continue
 		}
+		r.verifResetTicks()
 		r.pathBounds = getBounds(path)
 
 		if !r.rect.Intersects(r.pathBounds) {
